@@ -236,3 +236,43 @@ def wrong_length_section_list_is_rejected_twin(which: int, n: int) -> bool:
     post: _ == False
     """
     return wrong_length_section_list_is_rejected(which, n)
+
+
+# ------------------------------------------------------------------------------------------ independent builders
+def builders_do_not_share_options(which: int, compressible: bool, user_sref: bool, write: bool, out_dir: str) -> bool:
+    """
+    pre: 0 <= which <= 15 and len(out_dir) <= 3
+    post: _ == True
+    """
+    # reproducibility between independent problems of one process: whatever options an earlier MPhys builder was given
+    # (any subset `which` of the four documented keys, any values), a later builder created without options has the
+    # documented defaults, and so do the groups it hands out
+    from openaerostruct.mphys import AeroBuilder
+
+    documented = {"user_specified_Sref": False, "compressible": True, "output_dir": "./", "write_solution": True}
+    given = {}
+    if which & 1:
+        given["compressible"] = compressible
+    if which & 2:
+        given["user_specified_Sref"] = user_sref
+    if which & 4:
+        given["write_solution"] = write
+    if which & 8:
+        given["output_dir"] = out_dir
+    first = AeroBuilder([copy.deepcopy(_SURF)], options=given)
+    later = AeroBuilder([copy.deepcopy(_SURF)])
+    ok = dict(later.options) == documented
+    ok = ok and all(first.options[k] == (given[k] if k in given else documented[k]) for k in documented)
+    grp = later.get_coupling_group_subsystem()
+    post = later.get_post_coupling_subsystem()
+    ok = ok and grp.options["compressible"] is True and post.options["user_specified_Sref"] is False
+    ok = ok and post.options["write_solution"] is True and post.options["output_dir"] == "./"
+    return bool(ok)
+
+
+def builders_do_not_share_options_twin(which: int, compressible: bool, user_sref: bool, write: bool, out_dir: str) -> bool:
+    """
+    pre: 0 <= which <= 15 and len(out_dir) <= 3
+    post: _ == False
+    """
+    return builders_do_not_share_options(which, compressible, user_sref, write, out_dir)
